@@ -20,7 +20,7 @@ RULE = ("cases = seeded random core-fragment programs (5-60 statements; let/assi
 ASSUME = ["gm/ref/interp.py implements the documented semantics (DESIGN Appendix C); the printer gm/gen/printer.py "
           "prints the tree it is given (every nested operand parenthesised, one statement per line)",
           "sibling evaluation order and capture-then-assign are excluded by construction (undocumented)"]
-BATCH = 12
+BATCH = 6
 FLOOR = {"quick": 300, "thorough": 3000}
 BUDGET = {"quick": 40, "thorough": 780}
 
